@@ -3,6 +3,7 @@ import TTV.Spec.C13
 import TTV.Lemmas.ConcSuite
 import TTV.Props.C12
 import TTV.Lemmas.SuiteSkel
+import TTV.Lemmas.Merge
 import TTV.Generated.SuiteSkel
 /-! # C13 — concurrent suites run every test once, deliver every event, and terminate
 
@@ -14,7 +15,7 @@ The invariants they rest on are in `TTV/Lemmas/ConcSuite.lean` (`QInv`, `BI`, `R
 preserved by every step of the machine).
 -/
 namespace TTV.Props.C13
-open TTV.Conc TTV.Spec.C13
+open TTV.Conc TTV.Spec.C13 TTV.Merge
 
 /-! ## the final state -/
 
@@ -238,17 +239,19 @@ theorem range_contains (n w : Nat) : (List.range n).contains w = decide (w < n) 
   · simp [h]
   · simp [h]
 
-theorem sinkOf_model (i : SInput) (w : Nat) : Spec.C13.sinkOf w (modelC i) = Conc.sinkOf w (finalC i).sink := by
-  simp only [Spec.C13.sinkOf, Conc.sinkOf, modelC, traceOf, List.filter_map, List.map_map]
-  rfl
-
 theorem statusesOf_map_status (l : List SEv) : statusesOf (l.map Item.status) = l := by
   induction l with
   | nil => rfl
   | cons a l ih => simp [statusesOf] at ih ⊢; exact ih
 
-theorem eventsOf_stream (i : SInput) (hf : i.flavour = .stream) (w : Nat) : eventsOf i w = wEvents i w := by
-  unfold eventsOf wEvents workerAt
+/-- the events of worker `w` inside the machine (labelled with the worker's index) -/
+def idxEvents (i : SInput) (w : Nat) : List SEv :=
+  match i.workers[w]? with
+  | some wk => streamEvents w i.tb wk
+  | none => []
+
+theorem eventsOf_stream (i : SInput) (hf : i.flavour = .stream) (w : Nat) : eventsOf i w = idxEvents i w := by
+  unfold eventsOf idxEvents
   cases hw : i.workers[w]? with
   | none => rfl
   | some wk =>
@@ -259,11 +262,157 @@ theorem eventsOf_stream (i : SInput) (hf : i.flavour = .stream) (w : Nat) : even
       simp [statusesOf]
     rw [this, statusesOf_map_status]
 
+/-! ### route codes: what the caller sees of a worker -/
+
+/-- relabel an event with a route code -/
+def setW (r : Nat) (e : SEv) : SEv := { e with w := r }
+
+theorem testsEvents_setW (w r : Nat) : ∀ (ts : List WTest) (j : Nat), (testsEvents w j ts).map (setW r) = testsEvents r j ts
+  | [], _ => rfl
+  | t :: ts, j => by
+      simp only [testsEvents, List.map_append, testsEvents_setW w r ts (j + 1)]
+      congr 1
+      unfold testEvents
+      cases t.native with
+      | none => simp [setW]
+      | some evs => simp [setW, nativeEvent, Function.comp_def]
+
+theorem fileEvents_setW (w r : Nat) : ∀ n : Nat, (fileEvents w n).map (setW r) = fileEvents r n
+  | 0 => rfl
+  | 1 => rfl
+  | n + 2 => by simp only [fileEvents, List.map_cons, fileEvents_setW w r (n + 1)]; rfl
+
+/-- a worker's events under its route code are its events with the label replaced: nothing else depends on who emits them -/
+theorem streamEvents_setW (w r tb : Nat) (wk : Worker) : (streamEvents w tb wk).map (setW r) = streamEvents r tb wk := by
+  unfold streamEvents
+  rw [List.map_append, testsEvents_setW]
+  congr 1
+  split
+  · simp [brokenEvents, fileEvents_setW, setW, brokenFail]
+  · rfl
+
+/-- the events delivered under route code `r` = the machine's sink restricted to the workers given `r`, relabelled -/
+theorem sinkOf_model (i : SInput) (r : Nat) :
+    Spec.C13.sinkOf r (modelC i)
+      = (((finalC i).sink.filter fun p => routeOf i p.1.w == r).map (·.1)).map (setW r) := by
+  simp only [Spec.C13.sinkOf, modelC, traceOf]
+  induction (finalC i).sink with
+  | nil => rfl
+  | cons p l ih =>
+    simp only [List.map_cons, List.filter_cons]
+    by_cases h : routeOf i p.1.w = r
+    · simp only [h, beq_self_eq_true, if_true, List.map_cons, ih]
+      rfl
+    · have : (routeOf i p.1.w == r) = false := by simp [h]
+      simp only [this]
+      exact ih
+
+/-- **the account**: whatever the machine has delivered, the events under a route code `r` are an interleaving of the event
+sequences of the workers given `r`: consuming them leaves, per worker, exactly what that worker has not yet had delivered. -/
+theorem route_path (i : SInput) (r n : Nat) (rest : Nat → List SEv) :
+    ∀ (L : List (SEv × Bool)) (ss : List (List SEv)), ss.length = n → (∀ p ∈ L, p.1.w < n) →
+      (∀ w, w < n → ss[w]? = some (if routeOf i w = r then (Conc.sinkOf w L ++ rest w).map (setW r) else [])) →
+      ∃ ss', Path (((L.filter fun p => routeOf i p.1.w == r).map (·.1)).map (setW r)) ss ss' ∧ ss'.length = n ∧
+        ∀ w, w < n → ss'[w]? = some (if routeOf i w = r then (rest w).map (setW r) else [])
+  | [], ss, hl, _, hs => ⟨ss, .nil _, hl, fun w hw => by simpa [Conc.sinkOf] using hs w hw⟩
+  | p :: L, ss, hl, ho, hs => by
+      have hoL : ∀ q ∈ L, q.1.w < n := fun q hq => ho q (List.mem_cons_of_mem _ hq)
+      by_cases h : routeOf i p.1.w = r
+      · have hw0 : p.1.w < n := ho p List.mem_cons_self
+        have h0 := hs p.1.w hw0
+        simp only [h, if_true] at h0
+        have hsink0 : Conc.sinkOf p.1.w (p :: L) = p.1 :: Conc.sinkOf p.1.w L := by simp [Conc.sinkOf]
+        rw [hsink0] at h0
+        simp only [List.cons_append, List.map_cons] at h0
+        have hs1 : ∀ w, w < n → (ss.set p.1.w ((Conc.sinkOf p.1.w L ++ rest p.1.w).map (setW r)))[w]?
+            = some (if routeOf i w = r then (Conc.sinkOf w L ++ rest w).map (setW r) else []) := by
+          intro w hw
+          by_cases hww : p.1.w = w
+          · subst hww
+            rw [List.getElem?_set_self (by omega)]
+            simp [h]
+          · rw [List.getElem?_set_ne hww, hs w hw]
+            have : Conc.sinkOf w (p :: L) = Conc.sinkOf w L := by
+              have : (p.1.w == w) = false := by simp [hww]
+              simp [Conc.sinkOf, this]
+            rw [this]
+        obtain ⟨ss', hp, hl', hs'⟩ := route_path i r n rest L _ (by simpa using hl) hoL hs1
+        refine ⟨ss', ?_, hl', hs'⟩
+        have hf : (routeOf i p.1.w == r) = true := by simp [h]
+        simp only [List.filter_cons, hf, if_true, List.map_cons]
+        exact .cons p.1.w _ _ h0 (by simp) hp
+      · have hf : (routeOf i p.1.w == r) = false := by simp [h]
+        simp only [List.filter_cons, hf]
+        apply route_path i r n rest L ss hl hoL
+        intro w hw
+        rw [hs w hw]
+        by_cases hr : routeOf i w = r
+        · have hww : (p.1.w == w) = false := by
+            have : p.1.w ≠ w := fun hc => h (hc ▸ hr)
+            simp [this]
+          simp [Conc.sinkOf, hww]
+        · simp [hr]
+
 theorem final_sink_acct (i : SInput) (w : Nat) (hw : w < i.workers.length) :
     Conc.sinkOf w (finalC i).sink ++ statusesOf (todoItems (finalC i) w) = eventsOf i w := by
   have := (SInv_final i).acct w hw
   rw [hand_nil (by simp [(final_done i).1])] at this
   simpa using this
+
+theorem spawned_model (i : SInput) (w : Nat) : (modelC i).spawned.contains w = decide (w < (finalC i).nsp) := by
+  simp only [modelC, traceOf]; exact range_contains _ _
+
+theorem final_todo_nil (i : SInput) (hres : (finalC i).result = some .returned) (w : Nat) (hw : w < i.workers.length) :
+    todoItems (finalC i) w = [] := by
+  obtain ⟨hreg, hnsp, _⟩ := (RInv_final i).r_returned hres
+  by_cases hc : todoItems (finalC i) w = []
+  · exact hc
+  · have := ((QInv_final i).reg_iff w).mpr ⟨by omega, hc⟩
+    rw [hreg] at this; cases this
+
+/-- the events the model delivers under route code `r` are an interleaving of the streams of the workers given `r`; when
+`run()` returned, of the whole streams -/
+theorem model_route_path (i : SInput) (hf : i.flavour = .stream) (r : Nat) :
+    ∃ ss', Path (Spec.C13.sinkOf r (modelC i)) (streamsOf i (modelC i) r) ss' ∧
+      ((finalC i).result = some .returned → ∀ s ∈ ss', s = []) := by
+  have hs := SInv_final i
+  let rest : Nat → List SEv := fun w => if w < (finalC i).nsp then statusesOf (todoItems (finalC i) w) else []
+  have hn := nsp_le_n i
+  obtain ⟨ss', hp, hl', hs'⟩ := route_path i r i.workers.length rest (finalC i).sink (streamsOf i (modelC i) r)
+    (by simp [streamsOf, nWorkers])
+    (fun p hp => by have := hs.sink_owner p hp; omega)
+    (by
+      intro w hw
+      have hwk : i.workers[w]? = some i.workers[w] := by simp [hw]
+      simp only [streamsOf, nWorkers, List.getElem?_map, List.getElem?_range hw, Option.map_some, spawned_model]
+      by_cases hr : routeOf i w = r
+      · by_cases hlt : w < (finalC i).nsp
+        · have hacct := final_sink_acct i w hw
+          rw [eventsOf_stream i hf] at hacct
+          simp only [hr, beq_self_eq_true, hlt, decide_true, Bool.and_self, if_true, rest]
+          rw [hacct]
+          simp only [idxEvents, Spec.C13.wEvents, workerAt, hwk, hr]
+          rw [streamEvents_setW]
+        · have hnil : Conc.sinkOf w (finalC i).sink = [] := by
+            simp only [Conc.sinkOf, List.map_eq_nil_iff, List.filter_eq_nil_iff]
+            intro p hp
+            have := hs.sink_owner p hp
+            simp only [beq_iff_eq]; omega
+          simp [hr, hlt, rest, hnil]
+      · have : (routeOf i w == r) = false := by simp [hr]
+        simp [this, hr])
+  refine ⟨ss', by rw [sinkOf_model]; exact hp, ?_⟩
+  intro hres s hsm
+  obtain ⟨w, hw, hget⟩ := List.getElem_of_mem hsm
+  have hw' : w < i.workers.length := by omega
+  have h1 := hs' w hw'
+  rw [List.getElem?_eq_getElem hw, hget] at h1
+  have h2 : s = if routeOf i w = r then (rest w).map (setW r) else [] := Option.some.inj h1
+  rw [h2]
+  split
+  · have htodo := final_todo_nil i hres w hw'
+    simp [rest, htodo, statusesOf]
+  · rfl
 
 theorem c_delivered (i : SInput) : cDelivered i (modelC i) = true := by
   unfold cDelivered
@@ -291,48 +440,87 @@ theorem c_delivered (i : SInput) : cDelivered i (modelC i) = true := by
       · simp [hlt]
   | stream =>
     have hs := SInv_final i
-    have hq := QInv_final i
-    have hr := RInv_final i
-    simp only [Bool.and_eq_true, List.all_eq_true, List.mem_range]
+    simp only [Bool.and_eq_true, List.all_eq_true]
     refine ⟨?_, ?_⟩
     · intro p hp
       simp only [modelC, traceOf, List.mem_map] at hp
       obtain ⟨p', hp', rfl⟩ := hp
       have h1 := hs.sink_owner p' hp'
       have h2 := nsp_le_n i
-      have : p'.1.w < i.workers.length := by omega
-      simp [nWorkers, this]
-    · intro w hwn
-      simp only [nWorkers] at hwn
-      rw [sinkOf_model, ← eventsOf_stream i hf]
-      have hacct := final_sink_acct i w hwn
-      refine ⟨⟨?_, ?_⟩, ?_⟩
-      · rw [List.isPrefixOf_iff_prefix]
-        exact ⟨_, hacct⟩
-      · have hsp : (modelC i).spawned.contains w = decide (w < (finalC i).nsp) := by
-          simp only [modelC, traceOf]; exact range_contains _ _
-        rw [hsp]
-        by_cases hlt : w < (finalC i).nsp
-        · simp [hlt]
-        · have : Conc.sinkOf w (finalC i).sink = [] := by
-            simp only [Conc.sinkOf, List.map_eq_nil_iff, List.filter_eq_nil_iff]
-            intro p hp
-            have := hs.sink_owner p hp
-            simp only [beq_iff_eq]; omega
-          simp [this]
-      · by_cases hres : (finalC i).result = some .returned
-        · obtain ⟨hreg, hnsp, _⟩ := hr.r_returned hres
-          have htodo : todoItems (finalC i) w = [] := by
-            by_cases hc : todoItems (finalC i) w = []
-            · exact hc
-            · have := (hq.reg_iff w).mpr ⟨by omega, hc⟩
-              rw [hreg] at this; cases this
-          rw [htodo] at hacct
-          simp only [statusesOf, List.filterMap_nil, List.append_nil] at hacct
-          simp [hacct]
-        · have : ((modelC i).result != some .returned) = true := by
-            simp only [modelC, traceOf]; simpa using hres
-          simp [this]
+      refine ⟨?_, rfl⟩
+      simp only [routeCodes, nWorkers, List.contains_iff_mem, List.mem_map, List.mem_range]
+      exact ⟨p'.1.w, by omega, rfl⟩
+    · intro r _
+      obtain ⟨ss', hp, hend⟩ := model_route_path i hf r
+      refine ⟨(isMergePrefix_iff _ _).mpr ⟨ss', hp⟩, ?_⟩
+      by_cases hres : (finalC i).result = some .returned
+      · have := (isMerge_iff _ _).mpr ⟨ss', hp, hend hres⟩
+        simp [this]
+      · have : ((modelC i).result != some .returned) = true := by
+          simp only [modelC, traceOf]; simpa using hres
+        simp [this]
+
+/-- **C13 (equal route codes)** — `make_tests` may give several workers the same route code (`None` for all of them, say).
+Under every schedule and fault plan the events the caller's result receives under a route code are an interleaving of prefixes of
+the event sequences of the workers given that code - every worker's events in its own order, none twice - and, when `run()`
+returned, an interleaving of ALL their events: none lost, none invented. -/
+theorem C13_same_route_code (i : SInput) (hf : i.flavour = .stream) (r : Nat) :
+    isMergePrefix (Spec.C13.sinkOf r (modelC i)) (streamsOf i (modelC i) r) = true
+      ∧ ((finalC i).result = some .returned → isMerge (Spec.C13.sinkOf r (modelC i)) (streamsOf i (modelC i) r) = true) := by
+  obtain ⟨ss', hp, hend⟩ := model_route_path i hf r
+  exact ⟨(isMergePrefix_iff _ _).mpr ⟨ss', hp⟩, fun hres => (isMerge_iff _ _).mpr ⟨ss', hp, hend hres⟩⟩
+
+/-- **C13 (the interleaving clause for a route code nobody shares)** — if `w` is the only started worker given the code `r` (the
+case whenever route codes are distinct), then for ANY observed trace "the events under `r` are an interleaving of prefixes of the
+streams" says exactly "they are a prefix of `w`'s events", and "an interleaving of the whole streams" says "they are `w`'s events":
+the clause for distinct codes is not weakened. -/
+theorem C13_merge_single (i : SInput) (t : STrace) (r w : Nat) (hw : w < nWorkers i)
+    (hme : routeOf i w = r ∧ t.spawned.contains w = true)
+    (honly : ∀ w', w' < nWorkers i → w' ≠ w → ¬(routeOf i w' = r ∧ t.spawned.contains w' = true)) (l : List SEv) :
+    (isMergePrefix l (streamsOf i t r) = true ↔ ∃ rest, Spec.C13.wEvents i w = l ++ rest)
+      ∧ (isMerge l (streamsOf i t r) = true ↔ Spec.C13.wEvents i w = l) := by
+  have hlen : (streamsOf i t r).length = nWorkers i := by simp [streamsOf]
+  have hget : ∀ j, j < nWorkers i → (streamsOf i t r)[j]? =
+      some (if routeOf i j == r && t.spawned.contains j then Spec.C13.wEvents i j else []) := by
+    intro j hj; simp [streamsOf, hj]
+  have hsplit : streamsOf i t r = (streamsOf i t r).take w ++ Spec.C13.wEvents i w :: (streamsOf i t r).drop (w + 1) := by
+    have hlt : w < (streamsOf i t r).length := by omega
+    conv => lhs; rw [← List.take_append_drop w (streamsOf i t r)]
+    rw [List.drop_eq_getElem_cons hlt]
+    have := hget w hw
+    rw [List.getElem?_eq_getElem hlt] at this
+    have h2 := Option.some.inj this
+    simp only [hme.1, beq_self_eq_true, hme.2, Bool.and_self, if_true] at h2
+    rw [h2]
+  have hother : ∀ j, j < nWorkers i → j ≠ w → ∀ s, (streamsOf i t r)[j]? = some s → s = [] := by
+    intro j hj hne s hs
+    rw [hget j hj] at hs
+    have hno := honly j hj hne
+    have : (routeOf i j == r && t.spawned.contains j) = false := by
+      cases h1 : (routeOf i j == r) with
+      | false => rfl
+      | true =>
+        cases h2 : t.spawned.contains j with
+        | false => rfl
+        | true => exact absurd ⟨by simpa using h1, h2⟩ hno
+    rw [this] at hs
+    exact (Option.some.inj hs).symm
+  have hpre : ∀ s ∈ (streamsOf i t r).take w, s = [] := by
+    intro s hs
+    obtain ⟨j, hj, hjs⟩ := List.getElem_of_mem hs
+    have hjw : j < w := by simp at hj; omega
+    refine hother j (by omega) (by omega) s ?_
+    rw [List.getElem_take] at hjs
+    rw [List.getElem?_eq_getElem (by omega), hjs]
+  have hpost : ∀ s ∈ (streamsOf i t r).drop (w + 1), s = [] := by
+    intro s hs
+    obtain ⟨j, hj, hjs⟩ := List.getElem_of_mem hs
+    simp only [List.length_drop] at hj
+    rw [List.getElem_drop] at hjs
+    refine hother (w + 1 + j) (by omega) (by omega) s ?_
+    rw [List.getElem?_eq_getElem (by omega), hjs]
+  rw [hsplit]
+  exact ⟨isMergePrefix_single _ _ hpre hpost l _, isMerge_single _ _ hpre hpost l _⟩
 
 /-! ### abort -/
 
@@ -691,6 +879,51 @@ theorem stream_broken_count (wi tb : Nat) (w : Worker) :
     simp [brokenEvents, List.filter_append, fileEvents_noFail, List.filter_cons, e1]
   · rfl
 
+theorem brokenFails_countP (r : Nat) (t : STrace) :
+    brokenFails r t = (Spec.C13.sinkOf r t).countP (· == brokenFail r) := by
+  simp only [brokenFails, Spec.C13.sinkOf]
+  induction t.sink with
+  | nil => rfl
+  | cons p l ih =>
+    by_cases h1 : p.1 = brokenFail r
+    · have hw : (p.1.w == r) = true := by rw [h1]; simp [brokenFail]
+      have he : (p.1 == brokenFail r) = true := by simp [h1]
+      rw [List.filter_cons, List.filter_cons]
+      simp only [he, hw, if_true, List.length_cons, List.map_cons, List.countP_cons, ih]
+    · have hne : (p.1 == brokenFail r) = false := by simp [h1]
+      rw [List.filter_cons, List.filter_cons]
+      simp only [hne, Bool.false_eq_true, if_false]
+      by_cases h2 : (p.1.w == r) = true
+      · simp only [h2, if_true, List.map_cons, List.countP_cons, hne, Bool.false_eq_true, if_false, Nat.add_zero, ih]
+      · simp only [h2, Bool.false_eq_true, if_false, ih]
+
+theorem sum_ite_eq_filter_length {β : Type} (c : β → Bool) : ∀ l : List β,
+    (l.map fun x => if c x then 1 else 0).sum = (l.filter c).length
+  | [] => rfl
+  | x :: l => by
+      have ih := sum_ite_eq_filter_length c l
+      by_cases h : c x = true
+      · simp [List.filter_cons, h, ih]; omega
+      · simp [List.filter_cons, h, ih]
+
+/-- the streams under a route code hold as many final `broken-runner` events as workers with that code raise -/
+theorem streams_broken_total (i : SInput) (r : Nat) (hall : (finalC i).nsp = i.workers.length) :
+    total (· == brokenFail r) (streamsOf i (modelC i) r) = boomsOf i r := by
+  simp only [total, streamsOf, boomsOf, nWorkers, List.map_map]
+  rw [← sum_ite_eq_filter_length]
+  congr 1
+  apply List.map_congr_left
+  intro w hw
+  have hw' : w < i.workers.length := by simpa using hw
+  have hwk : i.workers[w]? = some i.workers[w] := by simp [hw']
+  simp only [Function.comp, spawned_model, hall, hw', decide_true, Bool.and_true, workerAt, hwk, Option.map_some, Option.getD_some]
+  by_cases hr : routeOf i w = r
+  · simp only [hr, beq_self_eq_true, if_true, Bool.true_and, Spec.C13.wEvents, workerAt, hwk]
+    have := stream_broken_count r i.tb i.workers[w]
+    rw [List.countP_eq_length_filter, this]
+  · have : (routeOf i w == r) = false := by simp [hr]
+    simp [this]
+
 theorem c_brokenRunner (i : SInput) : cBrokenRunner i (modelC i) = true := by
   unfold cBrokenRunner
   simp only [List.all_eq_true, List.mem_range]
@@ -701,26 +934,12 @@ theorem c_brokenRunner (i : SInput) : cBrokenRunner i (modelC i) = true := by
   cases hf : i.flavour with
   | stream =>
     by_cases hres : (finalC i).result = some .returned
-    · have hr := RInv_final i
-      have hq := QInv_final i
-      obtain ⟨hreg, hnsp, _⟩ := hr.r_returned hres
-      have hacct := final_sink_acct i w hwn
-      have htodo : todoItems (finalC i) w = [] := by
-        by_cases hc : todoItems (finalC i) w = []
-        · exact hc
-        · have := (hq.reg_iff w).mpr ⟨by omega, hc⟩
-          rw [hreg] at this; cases this
-      rw [htodo] at hacct
-      simp only [statusesOf, List.filterMap_nil, List.append_nil] at hacct
-      have hcount : brokenFails w (modelC i) = (if i.workers[w].boom then 1 else 0) := by
-        simp only [brokenFails, modelC, traceOf, List.filter_map, List.length_map]
-        have := count_via_sinkOf (brokenFail w) (finalC i).sink
-        simp only [Function.comp_def] at this ⊢
-        have hbw : (brokenFail w).w = w := rfl
-        rw [this, hbw, hacct, eventsOf_stream i hf]
-        simp only [wEvents, workerAt, hwk]
-        exact stream_broken_count w i.tb _
-      simp [hcount]
+    · obtain ⟨_, hnsp, _⟩ := (RInv_final i).r_returned hres
+      obtain ⟨ss', hp, hend⟩ := model_route_path i hf (routeOf i w)
+      have hc := path_count (· == brokenFail (routeOf i w)) _ _ _ hp
+      rw [total_empty _ _ (hend hres), streams_broken_total i _ hnsp, ← brokenFails_countP] at hc
+      simp only [Nat.add_zero] at hc
+      simp [hc]
     · have : ((modelC i).result != some .returned) = true := by
         simp only [modelC, traceOf]; simpa using hres
       simp [this]
